@@ -29,6 +29,10 @@ type Obligation struct {
 	Harness   string                    `json:"harness"`
 	Params    map[string]map[string]int `json:"params"`
 	Asserts   []string                  `json:"asserts"`
+	// EngineReplay: the violated assertion is about the engine's own observation of the execution (which cells
+	// were stored to), which the compiled program cannot observe: a counterexample the native run does not
+	// reproduce is confirmed by deterministic re-execution of its decision vector in the engine.
+	EngineReplay bool `json:"engine_replay"`
 	Models    []string                  `json:"models"`
 	Sched     bool                      `json:"sched"`
 	MapOrder  bool                      `json:"maporder"`
@@ -454,7 +458,7 @@ func cmdCheck(args []string) int {
 					reproduced = nativeOK
 				}
 				engineOK := ""
-				if !reproduced && (ob.Sched || ob.NoNative || ob.MapOrder) {
+				if !reproduced && (ob.Sched || ob.NoNative || ob.MapOrder || ob.EngineReplay) {
 					// schedule / map-order dependent: deterministic re-execution in the engine is authoritative
 					vs, outcome := ex.Reexec(v.Decisions)
 					for _, w := range vs {
